@@ -220,7 +220,7 @@ def generate(tier, seed, ctx):
         # (d) composite stores
         for fill in (0, 1000, 1013, 1014, 1015, 1023):
             for nrefs in range(5):
-                for inner_bits, inner_refs, consume in ((8, 0, 0), (9, 1, 0), (9, 2, 1), (9, 2, 2), (0, 4, 0), (0, 4, 3), (1023, 0, 0)):
+                for inner_bits, inner_refs, consume in ((8, 0, 0), (9, 1, 0), (9, 1, 1), (9, 2, 1), (9, 2, 2), (0, 4, 0), (0, 4, 3), (0, 4, 4), (1023, 0, 0)):
                     p = fresh()
                     kids = [leaf(p, rng) for _ in range(max(1, min(2, inner_refs)))]
                     inner = leaf(p, rng, inner_bits, [kids[j % len(kids)] for j in range(inner_refs)])
